@@ -422,3 +422,26 @@ Proof.
     destruct (get_fabric_id noc) as [f|]; [|discriminate].
     destruct (negb (f =? fabric_id)); discriminate.
 Qed.
+
+(** The root repeated as "intermediate" admits nothing new: whenever CASE
+    admits [noc] with the trusted root presented again as intermediate,
+    it admits the same node without it (the leaf is directly signed by
+    the trusted root either way). *)
+Lemma rule_link_root_flag_above_leaf : forall t r c p,
+  rule_link t r (mkLink 1 c p false) = rule_link t r (mkLink 1 c p true).
+Proof. intros t r c p. destruct r; reflexivity. Qed.
+
+Theorem repeated_root_admits_nothing_new : forall t fid root noc n,
+  case_admit t fid root noc (Some root) = Ok n ->
+  case_admit t fid root noc None = Ok n.
+Proof.
+  intros t fid root noc n H.
+  apply case_admit_iff in H as [(Hc & Hf & _) Hn].
+  apply case_admit_iff. split; [|exact Hn].
+  split; [|split; [exact Hf|reflexivity]].
+  intros r. specialize (Hc r). unfold rule_holds, links in *.
+  cbn [opt_list app links_from forallb] in *.
+  apply andb_true_iff in Hc as [H0 Hc]. apply andb_true_iff in Hc as [H1 _].
+  change (0 + 1) with 1 in *.
+  rewrite H0, <- rule_link_root_flag_above_leaf, H1. reflexivity.
+Qed.
